@@ -18,7 +18,7 @@ LEVEL_TEXT = ('Static decision of the structural necessary conditions of the AGP
               'formulas of the property statement; the recalculation protocol, arg-max wiring and freshness '
               'ordering are decided on event traces of the anchored functions; every writer of M / z* raises the '
               'recalculation flag; recorded trial values are immutable after the evaluation routine; no routine on any entry point lowers or '
-              'resets the Hoelder estimate.')
+              'resets the Hoelder estimate; only the selection routine requests (pops) the best interval.')
 EXPLANATION = ('For every syntactic path (loops unrolled <= 2, trivial accessors inlined) of the routines that '
                'compute the characteristic, the estimate M, the new point, the seed, the full recomputation, the '
                'selection and the renewal, the stored/returned value is normalised to a rational function over '
